@@ -23,8 +23,46 @@ from .proc import FakeFcntl, FakeOs, FakeSubprocess, FakeThread, SimProcs  # noq
 
 EPOCH = 1_700_000_000.0
 
-_real_time = _time_mod.time
-_real_sleep = _time_mod.sleep
+_REAL: dict = {}
+
+
+def unpatch_globals() -> None:
+    """give the process its real clocks / ids back (between in-process runs)"""
+    if not _REAL:
+        return
+    import socket as real_socket
+    import uuid
+
+    _time_mod.time = _REAL['time']
+    _time_mod.sleep = _REAL['sleep']
+    _time_mod.monotonic = _REAL['monotonic']
+    _time_mod.perf_counter = _REAL['perf_counter']
+    os.getpid = _REAL['getpid']
+    os.getppid = _REAL['getppid']
+    real_socket.gethostname = _REAL['gethostname']
+    real_socket.getfqdn = _REAL['getfqdn']
+    uuid.uuid1 = _REAL['uuid1']
+    uuid.uuid4 = _REAL['uuid4']
+
+
+def preload() -> None:
+    """import (not run) every exabgp module a World may touch, so that the pristine snapshot of
+    exasim.isolate covers them and forked children share them"""
+    import importlib
+    import pkgutil
+
+    import exabgp
+
+    skip = ('exabgp.application', 'exabgp.cli', 'exabgp.vendoring', 'exabgp.__main__', 'exabgp.debug', 'exabgp.conf')
+    for m in pkgutil.walk_packages(exabgp.__path__, 'exabgp.'):
+        if m.name.startswith(skip):
+            continue
+        try:
+            importlib.import_module(m.name)
+        except Exception:
+            pass
+    import exabgp.application.healthcheck  # noqa: F401
+    import exabgp.debug.report  # noqa: F401
 
 
 class SimFS:
@@ -142,6 +180,7 @@ class World:
         self.fsm_log: list[tuple] = []
         self.api_log: list[tuple] = []
         self.reload_log: list[dict] = []
+        self.logs: list[tuple] = []
         self.ended: str | None = None
         self.exit_code: Any = None
         self.crash: str | None = None
@@ -198,6 +237,14 @@ class World:
         import socket as real_socket
         import uuid
 
+        if not _REAL:
+            _REAL.update(
+                {
+                    'time': _time_mod.time, 'sleep': _time_mod.sleep, 'monotonic': _time_mod.monotonic, 'perf_counter': _time_mod.perf_counter,
+                    'getpid': os.getpid, 'getppid': os.getppid, 'gethostname': real_socket.gethostname, 'getfqdn': real_socket.getfqdn,
+                    'uuid1': uuid.uuid1, 'uuid4': uuid.uuid4,
+                }
+            )  # fmt: skip
         _time_mod.time = self.wall
         _time_mod.sleep = self._sleep
         _time_mod.monotonic = lambda: self.loop.mono
@@ -308,6 +355,23 @@ class World:
 
         Configuration.reload = reload
 
+        # error / critical log lines are an observation (e.g. 'peer.exception.unhandled')
+        from exabgp.logger import log as exalog
+
+        def mk(level):
+            def logfn(message, source='', level=level):
+                try:
+                    text = message() if callable(message) else str(message)
+                except Exception as exc:  # noqa: BLE001
+                    text = f'<unrenderable log message: {exc}>'
+                world.logs.append((world.loop.mono, level, source, text))
+                world.rec('log', level=level, source=source, text=text[:300])
+
+            return logfn
+
+        exalog.error = mk('ERROR')
+        exalog.critical = mk('CRITICAL')
+
     # -------------------------------------------------------------------- boot
 
     def boot(self, config_text: str, as_file: bool = True) -> None:
@@ -367,6 +431,24 @@ class World:
             self.ended = 'crash'
             self.crash = ''.join(traceback.format_exception(type(exc), exc, exc.__traceback__))[-3000:]
         self.rec('sim-end', ended=self.ended.split(':')[0], code=str(self.exit_code))
+        self._finish()
+
+    def _finish(self) -> None:
+        """cancel what is left, close the loop, give the real clocks back"""
+        try:
+            for t in asyncio.all_tasks(self.loop):
+                t.cancel()
+            self.loop._ready.clear()
+            self.loop._scheduled.clear()
+            if not self.loop.is_closed():
+                self.loop.close()
+        except Exception:
+            pass
+        try:
+            asyncio.set_event_loop(None)
+        except Exception:
+            pass
+        unpatch_globals()
 
     # ------------------------------------------------------------------ helpers
 
